@@ -7,7 +7,9 @@ NROOTS = 64
 WORDS = 'PMRB'; SEQ = 'ALH'; ARR = 'AL'; MAPS = 'TE'
 # kind letter -> (kind, default key type, default element / value type); the letters U / F are T / E with Ref keys
 LETTER = {'P': ('P', 'R', 'R'), 'M': ('M', 'R', 'R'), 'R': ('R', 'R', 'R'), 'B': ('B', 'R', 'R'), 'A': ('A', 'R', 'R'), 'L': ('L', 'R', 'R'),
-          'T': ('T', 'I', 'R'), 'U': ('T', 'R', 'R'), 'E': ('E', 'I', 'R'), 'F': ('E', 'R', 'R'), 'H': ('H', 'R', 'R')}
+          'T': ('T', 'I', 'R'), 'U': ('T', 'R', 'R'), 'E': ('E', 'I', 'R'), 'F': ('E', 'R', 'R'), 'H': ('H', 'R', 'R'),
+          'W': ('W', 'S', 'R')}      # W: a Thread object other than current(Thread) (new(Thread), never started); set(t, key, obj) stores into its table
+NTLS = 64
 LEAF_T = 'ISF'
 CHAIN_CAP = {'R': 20000, 'P': 20000, 'A': 6000, 'H': 8000, 'U': 4000, 'L': 6000, 'E': 4000}
 
@@ -23,6 +25,7 @@ class Shadow:
         self.lines = ['mode full' if full else 'mode exact']
         self.next_id = 0
         self.stats = {}
+        self.stale = False     # exact mode: an xraise left mark bits set (new / pair / copy / chain / del / xbox / newraw are refused until the next collection)
         self.focus = False     # re-typing campaign: mostly containers, half of them leaf-typed, many assign / copy / clear
     # ---- helpers
     def emit(self, l):
@@ -151,6 +154,15 @@ class Shadow:
         o = self.o[i]; j = o['key'].index(key)
         o['el'][j] = o['el'][-1]; o['key'][j] = o['key'][-1]; o['el'].pop(); o['key'].pop()
         self.emit(f'trem {i} {key}')
+    def wset(self, i, k, tok):
+        o = self.o[i]
+        if k in o['key']: o['el'][o['key'].index(k)] = tok
+        else: o['key'].append(k); o['el'].append(tok)
+        self.emit(f'wset {i} {k} {tok}')
+    def wrem(self, i, k):
+        o = self.o[i]; j = o['key'].index(k)
+        o['el'][j] = o['el'][-1]; o['key'][j] = o['key'][-1]; o['el'].pop(); o['key'].pop()
+        self.emit(f'wrem {i} {k}')
     def settls(self, k, tok):
         self.tls[k] = tok; self.emit(f'tls {k} {tok}')
     def remtls(self, k):
@@ -166,7 +178,20 @@ class Shadow:
         live = self.reach(words=words)
         for i in list(self.o):
             if i not in live and not self.israw(i): del self.o[i]
+        self.stale = False
         self.emit('xcollect ' + ' '.join(words) if words else 'xcollect')
+    def xraise(self, i, words):
+        """exact mode: the Mark instance of ProbeM i throws when the marker reaches it (then: no sweep, the bits stay); not reached: an xcollect"""
+        live = self.reach(words=words)
+        if i in live: self.stale = True
+        else:
+            for j in list(self.o):
+                if j not in live and not self.israw(j): del self.o[j]
+            self.stale = False
+        self.emit(f'xraise {i} ' + ' '.join(words) if words else f'xraise {i}')
+    def craise(self, i):
+        """full mode: the real GC_Mark is left by an exception thrown by the Mark instance of the reachable ProbeM i"""
+        self.emit(f'craise {i}')
     def collect(self):
         self.emit('collect'); self.checkpoint()
     def churn(self, n):
@@ -189,7 +214,7 @@ class Shadow:
         if self.full: self.checkpoint()
         return base
 
-KINDS = ['P', 'P', 'P', 'R', 'R', 'M', 'A', 'L', 'T', 'U', 'E', 'F', 'H', 'H', 'B']
+KINDS = ['P', 'P', 'P', 'R', 'R', 'M', 'A', 'L', 'T', 'U', 'E', 'F', 'H', 'H', 'B', 'W']
 
 FOCUS_KINDS = ['P', 'P', 'R', 'A', 'L', 'T', 'T', 'U', 'E', 'F', 'H', 'A', 'T']
 
@@ -259,6 +284,11 @@ def mutate(rng, sh, cands_fn, new_slot_fn):
         mk(kind, new_slot_fn(), root=rng.random() < (0.04 if sh.full else 0.08))
         return
     if r < (0.58 if sh.focus else 0.40) and retype(rng, sh, cands, new_slot_fn): return
+    mutate_existing(rng, sh, cands)
+
+def mutate_existing(rng, sh, cands):
+    """a store into an existing object (no allocation, no deletion): also what a program may do while stale mark bits are set"""
+    if not cands: return
     i = rng.choice(cands); o = sh.o[i]; k = o['kind']
     tg = [c for c in cands if not sh.owned(c)]
     if k in 'MH': tg = [c for c in tg if not sh.israw(c)]     # a Mark instance would hand the raw pointer to the callback
@@ -276,12 +306,34 @@ def mutate(rng, sh, cands_fn, new_slot_fn):
             t = rand_tok(rng, sh, tg, junk=False)
             if k == 'H' and t == 'n': return
             sh.push(i, t)
+    elif k == 'W':
+        if o['key'] and rng.random() < 0.3: sh.wrem(i, rng.choice(o['key']))
+        else: sh.wset(i, rng.randrange(8), rand_tok(rng, sh, tg, junk=False))
     elif k in MAPS and o['kt'] != 'R':
         if o['key'] and rng.random() < 0.3: sh.trem(i, rng.choice(o['key']))
         else: sh.tset(i, rng.choice([rng.randrange(-5, 40), rng.randrange(40) * 1265 + 3]), rand_tok(rng, sh, tg, junk=False))
     else:
         if o['key'] and rng.random() < 0.3: sh.trem(i, rng.choice(o['key']))
         elif tg: sh.tset(i, rng.choice(tg), rand_tok(rng, sh, tg, junk=False))
+
+def attach(sh, h, x):
+    """store a pointer to x into the holder h (kinds R P: slot 0; A L H: push)"""
+    if sh.o[h]['kind'] in 'RP': sh.store(h, 0, f'o{x}')
+    else: sh.push(h, f'o{x}')
+
+def after_raise(rng, sh, words, probe):
+    """mark bits are set (an exception left the mark phase).  The program goes on: a few stores; often it attaches an object that the
+    interrupted mark phase had not reached to a holder it had already marked (reachable from thread-local storage / a root-registered
+    entry) — the next collection must keep that object (GC_Unmark; a collector that starts from the stale bits skips the holder)"""
+    for _ in range(rng.randrange(0, 4)): mutate_existing(rng, sh, list(sh.o))
+    if rng.random() < 0.7:
+        early = sh.reach()                                  # marked by the TLS and root phases, before any stack word
+        late = sh.reach(words=words)
+        hs = [i for i in early if i in sh.o and sh.o[i]['kind'] in 'RPALH' and i != probe
+              and not (sh.o[i]['kind'] in ARR and sh.o[i]['vt'] != 'R')]
+        xs = [i for i in sh.o if i not in late and not sh.owned(i) and not sh.israw(i)]
+        if hs and xs: attach(sh, rng.choice(hs), rng.choice(xs))
+    for _ in range(rng.randrange(0, 3)): mutate_existing(rng, sh, list(sh.o))
 
 def gen_exact(rng, nops, maxobj, ncollect, focus=False):
     sh = Shadow(False); sh.focus = focus
@@ -293,7 +345,18 @@ def gen_exact(rng, nops, maxobj, ncollect, focus=False):
             tg = sh.targets(); words = []
             for _ in range(rng.choice([0, 1, 1, 2, 3, 5])):
                 words.append(rand_tok(rng, sh, tg))
-            sh.xcollect(words)
+            ms = [i for i in sh.o if sh.o[i]['kind'] == 'M' and not sh.owned(i)]
+            if ms and rng.random() < 0.3:
+                # a collection whose mark phase an exception leaves (the Mark instance of a probe throws), then the next one
+                m = rng.choice(ms)
+                if rng.random() < 0.6: words = words + [f'o{m}']      # reached through a stack word, after the TLS and root phases
+                sh.xraise(m, words)
+                if sh.stale:
+                    after_raise(rng, sh, words, m)
+                    tg = sh.targets()
+                    sh.xcollect([rand_tok(rng, sh, tg) for _ in range(rng.choice([0, 0, 1, 2]))])
+            else:
+                sh.xcollect(words)
         elif r < 0.05:
             k = rng.randrange(8)
             if k in sh.tls and rng.random() < 0.5: sh.remtls(k)
@@ -320,6 +383,18 @@ def gen_full(rng, nops, nslots, focus=False):
             if k in sh.tls and rng.random() < 0.5: sh.remtls(k)
             else: sh.settls(k, rand_tok(rng, sh, [i for i in lv if not sh.owned(i)], junk=False))
         elif r < 0.20: sh.collect()
+        elif r < 0.225:
+            # the real GC_Mark left by an exception; then an object is attached to a holder that mark phase has (probably) marked
+            ms = [i for i in lv if sh.o[i]['kind'] == 'M']
+            if ms:
+                m = rng.choice(ms); sh.craise(m)
+                hs = [i for i in lv if sh.o[i]['kind'] in 'RP' and i != m and not sh.owned(i)]
+                if hs and rng.random() < 0.8:
+                    s_ = rng.randrange(nslots); x = sh.new('P', arg=str(rng.choice([1, 2, 8])), slot=s_)
+                    if x in sh.o:
+                        hs = [i for i in hs if i in sh.o and i in sh.reach(slots=True)]
+                        if hs: sh.store(rng.choice(hs), 0, f'o{x}'); sh.root(s_, 'n')
+                sh.collect()
         elif r < 0.24: sh.churn(rng.choice([1, 5, 20, 60, 150]))
         elif r < 0.26:
             # explicit del of an object that has just become unreachable (before any allocation)
@@ -533,10 +608,61 @@ def shape_cases(quick):
         sh.remtls(1); sh.root(0, 'n'); sh.churn(10); sh.collect()
         cs.append(Case('full_three_root_kinds', sh.lines, meta=dict(stats=sh.stats)))
     fullshape()
+    # ---- formerly excluded territory (fixes d8f0c4f, 80c795e, d3e4e44)
+    def raise_attach(sh):
+        r = sh.new('R', root=True); a = sh.new('A', root=True); t = sh.new('P', arg='2'); sh.settls(1, f'o{t}')
+        m = sh.new('M'); x = sh.new('P', arg='8'); y = sh.new('P', arg='1'); z = sh.new('R')
+        sh.xraise(m, [f'o{m}', f'o{x}'])          # the bits of r, a, t, m stay; x is never visited
+        sh.store(r, 0, f'o{x}'); sh.push(a, f'o{y}'); sh.store(t, 0, f'o{z}')
+        sh.xcollect([])                           # x, y, z hang below holders whose bit was left set: kept
+        sh.store(r, 0, 'n'); sh.xcollect([])
+        m2 = sh.new('M'); sh.settls(2, f'o{m2}')
+        sh.xraise(m2, []); sh.xraise(m2, [f'o{m2}'])     # left in the TLS phase, twice in a row
+        sh.store(t, 1, f'o{y}'); sh.remtls(2); sh.xcollect([])
+        sh.xcollect([])
+    ex('raise_then_attach', raise_attach)
+    def foreign_thread(sh):
+        w = sh.new('W'); x = sh.new('P', arg='1'); y = sh.new('R'); sh.store(y, 0, f'o{x}')
+        sh.wset(w, 1, f'o{y}'); sh.wset(w, 2, f'o{x}'); sh.wset(w, 3, 'n')
+        sh.xcollect([f'o{w}', f'o{y}'])           # y is a root word itself: w, y, x survive
+        sh.xcollect([f'o{w}'])                    # only the Thread object: another thread's table is not traced, y and x are swept
+        z = sh.new('P', arg='2'); sh.wset(w, 1, f'o{z}'); sh.wrem(w, 2)
+        hold = sh.new('A', root=True); sh.push(hold, f'o{w}'); sh.settls(5, f'o{w}')
+        sh.xcollect([f'o{z}']); sh.xcollect([])   # w is kept by the Array / TLS; z only while it is a root word
+        wr = sh.new('W', root=True); v = sh.new('R'); sh.wset(wr, 0, f'o{v}'); sh.xcollect([])
+        sh.delete(wr) if not sh.has_incoming(wr) else None
+        sh.pop(hold, 0); sh.remtls(5); sh.xcollect([])
+    ex('foreign_thread_table', foreign_thread)
+    def del_null(sh):
+        keep = sh.new('R', root=True)
+        ps = [sh.new('P', arg='8') for _ in range(12)]
+        for a, b in zip(ps, ps[1:]): sh.store(a, 7, f'o{b}')
+        sh.store(keep, 0, f'o{ps[6]}')
+        sh.xcollect([])                           # ps[0..5] are swept: each destructor calls del(NULL) while its own free-list slot is NULL
+        sh.delete(ps[6]) if not sh.has_incoming(ps[6]) else sh.store(keep, 0, 'n')
+        sh.xcollect([])
+        arr = sh.new('A'); q = sh.new('P', arg='8'); sh.push(arr, f'o{q}'); t = sh.new('P', arg='8'); b = sh.new('B', boxtgt=t)
+        sh.xcollect([])                           # a Box and its 8-slot target, an Array and an 8-slot probe: nested del during the release loop
+    ex('del_null_in_destructor', del_null)
+    def fullraise():
+        sh = Shadow(True)
+        h = sh.new('R', slot=0, root=True); sh.root(0, 'n')
+        p = sh.new('P', arg='2', slot=1); m = sh.new('M', slot=2); sh.store(m, 0, f'o{p}')
+        sh.craise(m)
+        x = sh.new('P', arg='8', slot=3); sh.store(h, 0, f'o{x}'); sh.root(3, 'n')
+        y = sh.new('R', slot=3); sh.store(p, 1, f'o{y}'); sh.root(3, 'n')
+        sh.collect(); sh.churn(30); sh.collect()
+        sh.craise(m); sh.craise(m)
+        z = sh.new('P', arg='1', slot=4); sh.store(y, 0, f'o{z}'); sh.root(4, 'n'); sh.root(2, 'n'); sh.root(1, 'n')
+        sh.collect(); sh.churn(10); sh.collect()
+        cs.append(Case('full_raise_then_attach', sh.lines, meta=dict(stats=sh.stats)))
+    fullraise()
     bad = ['mode exact', 'new 0 P 3 -', 'new 0 Q - -', 'new 0 P 2 -', 'new 0 R - -', 'store 0 2 n', 'store 0 0 o9', 'store 0 0 x1', 'push 0 o0', 'new 1 H - -',
            'push 1 n', 'pop 1 0', 'tset 1 0 o0', 'trem 1 0', 'tlsrem 5', 'tls 99 n', 'root 64 n', 'del 7', 'collect', 'churn 3', 'mode full', 'new 2 B 0 -', 'new 3 B 0 -',
            'store 1 0 o0', 'push 1 o0', 'del 0', 'xcollect o0 zz', 'xcollect o1', 'frobnicate', 'new 4 P 1 s70', 'chain 10 0 R -', 'chain 10 3 Q -', 'chain 10 3 R -', 'chain 11 2 R -',
-           'deepchild 0 R', 'xcollect o10 o2', 'del 2', 'xcollect']
+           'deepchild 0 R', 'xcollect o10 o2', 'del 2', 'xcollect', 'new 20 W I -', 'new 20 W - -', 'wset 20 64 n', 'wset 20 1 m20', 'wset 1 1 n', 'wrem 20 1', 'wset 20 1 o20',
+           'push 20 o20', 'store 20 0 n', 'tset 20 1 n', 'copy 21 20 -', 'assign 20 1', 'craise 1', 'xraise 20', 'new 21 M - -', 'xraise 21 o21', 'new 22 P 1 -', 'del 21',
+           'wset 20 2 o21', 'xcollect', 'wrem 20 2', 'wrem 20 1', 'xcollect']
     cs.append(Case('bad_ops', bad))
     if not quick:
         cs.append(Case('deep_children', ['mode exact'] + [f'deepchild {n} {k}' for n in (100, 2000, 15000) for k in 'RPAH']))
